@@ -220,7 +220,10 @@ class C06:
                   "227 ok 1,2,3,4,5,6", "227 ok (1,2,3,4,5,6", "227 ok 1,2,3,4,5,6)", "227 ok )1,2,3,4,5,6(", "227 ()",
                   "227 (,,,,,)", "227 (1,2,3,4,,6)", "227 (a,b,c,d,1,2)", "227 (1,2,3,4,+5,6)", "227 (1,2,3,4,5,6) (x)",
                   "227 (x) (1,2,3,4,5,6)", "227 ((1,2,3,4,5,6))", "227 (1,2,3,4,00005,006)", "227 (999,2,3,4,5,6)",
-                  "227 (1,2,3,4,5,18446744073709551616)", "227 (1,2,3,4,5,65536)", "227 (1,2,3,4, 5,6)"]:
+                  "227 (1,2,3,4,5,18446744073709551616)", "227 (1,2,3,4,5,65536)", "227 (1,2,3,4, 5,6)",
+                  "227 (::1,0,0,1,4,5)", "227 (::ffff:1,2,3,4,4,5)", "227 (0x7f,0,0,1,4,5)", "227 (127,0,0,1 ,4,5)", "227 (1,2,3,,4,5)",
+                  "227 (256,0,0,1,4,5)", "227 (1,2,3,300,4,5)", "227 (001,02,3,4,5,6)", "227 (1,2,3,4,5,6,,)", "227 (,1,2,3,4,5,6)",
+                  "227 (1,2,3,4%,4,5)", "227 (%1%,0,0,1,4,1)", "227 (1,2,3,4,5,6,)x)"]:
             c.append("pasv " + S(t))
         for t in ["229 Entering Extended Passive Mode (|||6446|)", "229 ok (|||6446)", "229 ok (1234567|)", "229 ok (|||65535|)",
                   "229 ok (|||65536|)", "229 ok (|||0|)", "229 ok (!!!21!)", "229 ok (~~~21~)", "229 ok (   21 )",
@@ -257,6 +260,11 @@ class C06:
             for b in vals:
                 cases.append("pasv " + S("227 ok (1,2,3,4,%d,%d)" % (a, b)))
                 dist.add("pasv:field-limits")
+            for k in range(4):
+                h = ["1", "2", "3", "4"]
+                h[k] = str(a)
+                cases.append("pasv " + S("227 ok (%s,5,6)" % ",".join(h)))
+                dist.add("pasv:host-field-limits")
             for lead in ("", "0", "00"):
                 cases.append("epsv " + S("229 ok (|||%s%d|)" % (lead, a)))
                 cases.append("pasv " + S("227 ok (%s%d,2,3,%d,1,2)" % (lead, a, a)))
@@ -271,8 +279,8 @@ class C06:
                 dist.add("epsv:all-delimiter-bytes")
         # all malformed parenthesised parts over a small alphabet
         maxlen = 7 if thorough else 5
-        alpha = "1,(|)"
         for n in range(0, maxlen + 1):
+            alpha = "1,(|):" if n <= 5 else "1,(|)"
             for t in itertools.product(alpha, repeat=n):
                 u = "".join(t)
                 cases.append("pasv " + S("227 " + u))
@@ -285,7 +293,7 @@ class C06:
             r = rng.random()
             if r < 0.15:
                 k = rng.randrange(len(inner) + 1)
-                inner = inner[:k] + rng.choice(",,() x.-+\x00") + inner[k:]
+                inner = inner[:k] + rng.choice(",,() x.-+\x00:%") + inner[k:]
             elif r < 0.25:
                 f.pop(rng.randrange(6)); inner = ",".join(f)
             elif r < 0.3:
